@@ -67,12 +67,19 @@ pub struct Profile {
     /// to more than the connection window, reservations raised AND lowered while partly served, small connection-level
     /// WINDOW_UPDATEs
     pub starve: bool,
+    /// C08: the malformed stream is drawn from `gen_fuzz` (mutated legal frames, random frame heads, raw bytes, the
+    /// chaos catalogue) and the read chunking changes all the time
+    pub fuzz: bool,
     /// the scripted peer never violates the protocol (no content-length, strictly within windows and limits)
     pub legal_peer: bool,
+    /// streams are finished and every handle (request handles, send / receive halves, response and push futures, flow-control
+    /// clones) is dropped in random order relative to connection progress; ends with a tear-down phase that drops whatever is
+    /// left while the connection stays alive (no extra PRNG draws for the other profiles)
+    pub idle: bool,
 }
 
 pub fn profile(name: &str) -> Profile {
-    let base = Profile { name: "mixed", w_conn_poll: 30, w_peer: 30, w_app: 40, w_io: 3, w_chaos: 0, w_end: 1, max_data: 3000, tiny_windows: false, small_limits: false, recv_heavy: false, control: false, queue: false, backpressure: false, starve: false, legal_peer: false };
+    let base = Profile { name: "mixed", w_conn_poll: 30, w_peer: 30, w_app: 40, w_io: 3, w_chaos: 0, w_end: 1, max_data: 3000, tiny_windows: false, small_limits: false, recv_heavy: false, control: false, queue: false, backpressure: false, starve: false, fuzz: false, legal_peer: false, idle: false };
     match name {
         "flow" => Profile { name: "flow", tiny_windows: true, max_data: 400, w_io: 6, ..base },
         "limits" => Profile { name: "limits", small_limits: true, max_data: 200, ..base },
@@ -84,7 +91,9 @@ pub fn profile(name: &str) -> Profile {
         "bp" => Profile { name: "bp", backpressure: true, max_data: 3000, w_io: 14, w_peer: 32, w_app: 36, w_conn_poll: 30, ..base },
         "queue" => Profile { name: "queue", small_limits: true, queue: true, max_data: 100, w_app: 55, w_peer: 25, w_conn_poll: 20, w_io: 2, ..base },
         "starve" => Profile { name: "starve", starve: true, max_data: 60, w_app: 55, w_peer: 20, w_conn_poll: 25, w_io: 1, w_end: 0, ..base },
+        "fuzz" => Profile { name: "fuzz", fuzz: true, w_chaos: 22, w_io: 8, w_peer: 30, w_app: 25, w_conn_poll: 30, max_data: 600, ..base },
         "control" => Profile { name: "control", w_end: 2, w_io: 5, control: true, ..base },
+        "idle" => Profile { name: "idle", idle: true, legal_peer: true, w_end: 0, max_data: 300, w_app: 50, ..base },
         _ => base,
     }
 }
@@ -470,10 +479,85 @@ pub fn gen_chaos(rng: &mut Rng, _d: &Driver, pv: &mut PeerView) -> Value {
     json!({"op":"peer","what":{"chaos":what},"bytes":bytes})
 }
 
+/// C08 malformed stream: mutations of frames the peer could legally send now, frames with random heads, raw bytes,
+/// well-formed frames in illegal places, and the chaos catalogue.  Every choice derives from `rng`.
+pub fn gen_fuzz(rng: &mut Rng, d: &Driver, pv: &mut PeerView, p: &Profile) -> Value {
+    let sids: Vec<u32> = {
+        let mut v: Vec<u32> = pv.streams.iter().map(|s| s.sid).collect();
+        v.extend_from_slice(&[0, 1, 2, 3, 5, 7, 0x7fff_ffff, pv.next_peer_sid, pv.next_peer_sid + 2, pv.next_peer_sid + 100]);
+        v
+    };
+    match rng.below(10) {
+        0..=2 => {
+            // mutate a frame the peer could legally send now
+            let mut pv2 = pv.clone();
+            let legal = Profile { w_end: 0, ..p.clone() };
+            if let Some(op) = gen_peer(rng, d, &mut pv2, &legal) {
+                let mut bytes: Vec<u8> = op["bytes"].as_array().map(|a| a.iter().map(|x| x.as_u64().unwrap_or(0) as u8).collect()).unwrap_or_default();
+                if !bytes.is_empty() {
+                    let what = match rng.below(8) {
+                        0 => { let i = rng.below(bytes.len().min(9) as u64) as usize; bytes[i] ^= 1 << rng.below(8); "flip-head-bit" }
+                        1 => { let i = rng.below(bytes.len() as u64) as usize; bytes[i] ^= 1 << rng.below(8); "flip-any-bit" }
+                        2 => { let n = rng.range(1, bytes.len() as u64) as usize; bytes.truncate(n); "truncate" }
+                        3 => { let b2 = bytes.clone(); bytes.extend(b2); "duplicate" }
+                        4 => { if bytes.len() > 4 { bytes[4] = rng.byte(); } "random-flags" }
+                        5 => { if bytes.len() > 3 { bytes[3] = rng.below(12) as u8; } "random-type" }
+                        6 => { if bytes.len() > 8 { let s = *rng.pick(&sids); bytes[5..9].copy_from_slice(&s.to_be_bytes()); } "random-stream" }
+                        _ => { if bytes.len() > 2 { bytes[2] = bytes[2].wrapping_add(*rng.pick(&[1u8, 2, 255, 254, 9])); } "length-off" }
+                    };
+                    return json!({"op":"peer","what":{"chaos":format!("mutate:{}", what)},"bytes":bytes});
+                }
+            }
+            gen_chaos(rng, d, pv)
+        }
+        3..=5 => {
+            // a frame with a random head and a short random payload
+            let ty = if rng.chance(1, 6) { rng.byte() } else { rng.below(10) as u8 };
+            let rb = rng.byte();
+            let flags = *rng.pick(&[0u8, 1, 4, 5, 8, 0x20, 0x2d, 0xff, rb]);
+            let sid = *rng.pick(&sids) | if rng.chance(1, 10) { 0x8000_0000 } else { 0 };
+            let n = *rng.pick(&[0usize, 1, 3, 4, 5, 6, 8, 9, 12, 17, 40]);
+            let payload = rng.bytes(n);
+            json!({"op":"peer","what":{"chaos":format!("random-frame:{}", ty)},"bytes":wire::frame(ty, flags, sid, &payload)})
+        }
+        6 => {
+            // a huge declared length
+            let len = *rng.pick(&[16385u32, 16384, 65536, 0xff_ffff]);
+            let mut b = vec![(len >> 16) as u8, (len >> 8) as u8, len as u8, rng.below(10) as u8, rng.byte()];
+            b.extend_from_slice(&rng.pick(&sids).to_be_bytes());
+            let n = rng.range(0, 30) as usize;
+            b.extend(rng.bytes(n));
+            json!({"op":"peer","what":{"chaos":"declared-length"},"bytes":b})
+        }
+        7 => {
+            // header-block games: HEADERS without END_HEADERS followed by something that is not its CONTINUATION
+            let sid = *rng.pick(&sids);
+            let n = rng.range(0, 12) as usize;
+            let pl = rng.bytes(n);
+            let mut b = wire::frame(wire::HEADERS, *rng.pick(&[0u8, 1, 0x20, 8]), sid, &pl);
+            match rng.below(4) {
+                0 => b.extend(wire::frame(wire::CONTINUATION, 0, sid + 2, &[0x82])),
+                1 => b.extend(wire::ping(false, [1, 2, 3, 4, 5, 6, 7, 8])),
+                2 => { let n = rng.range(0, 9) as usize; let pl = rng.bytes(n); b.extend(wire::frame(wire::CONTINUATION, wire::FLAG_END_HEADERS, sid, &pl)) }
+                _ => {}
+            }
+            json!({"op":"peer","what":{"chaos":"header-block-games"},"bytes":b})
+        }
+        8 => {
+            let n = rng.range(1, 64) as usize;
+            json!({"op":"peer","what":{"chaos":"random-bytes"},"bytes":rng.bytes(n)})
+        }
+        _ => gen_chaos(rng, d, pv),
+    }
+}
+
 /// One application-side op.
 pub fn gen_app(rng: &mut Rng, d: &Driver, p: &Profile) -> Option<Value> {
     let client = d.cfg.role_client;
     let nh = d.handles.len();
+    if p.idle && nh > 0 && rng.chance(1, 5) {
+        if let Some(op) = gen_drop(rng, d, false) { return Some(op); }
+    }
     let k = rng.below(100);
     if client && p.queue {
         let sr_n = if let Endpoint::Client { sr, .. } = &d.ep { sr.iter().filter(|x| x.is_some()).count() } else { 1 };
@@ -633,6 +717,87 @@ pub fn gen_app(rng: &mut Rng, d: &Driver, p: &Profile) -> Option<Value> {
     if opts.is_empty() { return None; }
     let i = rng.below(opts.len() as u64) as usize;
     Some(opts.swap_remove(i))
+}
+
+/// Every handle part that still exists, as the op that drops it (profile "idle").
+pub fn drop_candidates(d: &Driver, with_sr: bool) -> Vec<Value> {
+    let mut c: Vec<Value> = vec![];
+    for (h, hd) in d.handles.iter().enumerate() {
+        if hd.send.is_some() { c.push(json!({"op":"drop_send","h":h})); }
+        if hd.recv.is_some() { c.push(json!({"op":"drop_recv","h":h})); }
+        if hd.recv_fc.is_some() { c.push(json!({"op":"drop_fc","h":h})); }
+        if hd.resp.is_some() { c.push(json!({"op":"drop_response","h":h})); }
+        if hd.pushes.is_some() { c.push(json!({"op":"drop_pushes","h":h})); }
+        if hd.pushed_resp.is_some() { c.push(json!({"op":"drop_pushed_response","h":h})); }
+        if hd.respond.is_some() || hd.pushed_respond.is_some() { c.push(json!({"op":"drop_respond","h":h})); }
+    }
+    if with_sr {
+        if let Endpoint::Client { sr, .. } = &d.ep {
+            for (i, s) in sr.iter().enumerate() {
+                if s.is_some() { c.push(json!({"op":"drop_sr","sr":i})); }
+            }
+        }
+    }
+    c
+}
+
+fn gen_drop(rng: &mut Rng, d: &Driver, with_sr: bool) -> Option<Value> {
+    let mut c = drop_candidates(d, with_sr);
+    if c.is_empty() { return None; }
+    let i = rng.below(c.len() as u64) as usize;
+    Some(c.swap_remove(i))
+}
+
+/// Tear-down of profile "idle": the peer ends or resets some of the streams it still has open, then every remaining handle
+/// and request handle is dropped in random order, interleaved with polls of the connection; finally (short reset
+/// durations) the reset-expiry time is allowed to pass.  The connection itself is kept (and polled by `settle`).
+pub fn teardown(d: &mut Driver, rng: &mut Rng, pv: &mut PeerView) {
+    d.exec(&json!({"op":"write_mode","mode":"all"}));
+    d.exec(&json!({"op":"teardown","phase":"begin"}));
+    pv.observe(d);
+    for i in 0..pv.streams.len() {
+        let (sid, open, head, reset) = { let s = &pv.streams[i]; (s.sid, s.peer_open, s.peer_head_sent, s.reset) };
+        if reset || !open { continue; }
+        match rng.below(4) {
+            0 => {
+                pv.streams[i].reset = true;
+                pv.streams[i].peer_open = false;
+                let code = *rng.pick(&[0u32, 8, 5]);
+                d.exec(&peer_bytes(wire::rst_stream(sid, code), json!({"t":"RST_STREAM","sid":sid,"code":code})));
+            }
+            1 | 2 if head => {
+                pv.streams[i].peer_open = false;
+                d.exec(&peer_bytes(wire::data(sid, &[], true, None), json!({"t":"DATA","sid":sid,"len":0,"eos":true,"pad":null})));
+            }
+            _ => {}
+        }
+        if d.conn_woken() && rng.chance(1, 2) { d.exec(&json!({"op":"conn_poll"})); }
+    }
+    loop {
+        let op = match gen_drop(rng, d, true) { Some(op) => op, None => break };
+        d.exec(&op);
+        if d.conn_woken() && d.conn_done.is_none() && rng.chance(1, 2) { d.exec(&json!({"op":"conn_poll"})); }
+    }
+    d.exec(&json!({"op":"teardown","phase":"dropped"}));
+    if d.cfg.reset_stream_duration_ms.map(|v| v <= 1).unwrap_or(false) {
+        for _ in 0..3 {
+            if d.conn_done.is_some() { break; }
+            d.exec(&json!({"op":"conn_poll"}));
+        }
+        d.exec(&json!({"op":"sleep","ms":3}));
+        if d.conn_done.is_none() { d.exec(&json!({"op":"conn_poll"})); }
+    }
+    // what an executor would do: poll the connection as long as its waker fired ...
+    d.exec(&json!({"op":"write_chunk","n":0}));
+    d.exec(&json!({"op":"read_chunk","n":0}));
+    for _ in 0..200 {
+        let has_conn = match &d.ep { Endpoint::Client { conn, .. } => conn.is_some(), Endpoint::Server { conn } => conn.is_some() };
+        if !(d.conn_woken() && d.conn_done.is_none() && has_conn) { break; }
+        d.exec(&json!({"op":"conn_poll"}));
+    }
+    // ... then one poll nobody asked for (tells a lost wake-up from a connection that cannot finish)
+    d.exec(&json!({"op":"teardown","phase":"kick"}));
+    if d.conn_done.is_none() { d.exec(&json!({"op":"conn_poll"})); }
 }
 
 /// PING payloads h2 itself uses (frame/ping.rs): a peer that echoes them unsolicited probes the
@@ -812,7 +977,7 @@ pub fn run_random(d: &mut Driver, rng: &mut Rng, p: &Profile, steps: usize) {
                     } else {
                         r -= p.w_io;
                         if r < p.w_chaos {
-                            Some(gen_chaos(rng, d, &mut pv))
+                            Some(if p.fuzz { gen_fuzz(rng, d, &mut pv, p) } else { gen_chaos(rng, d, &mut pv) })
                         } else if !ended && rng.chance(1, 4) {
                             ended = true;
                             Some(match rng.below(4) {
@@ -833,6 +998,9 @@ pub fn run_random(d: &mut Driver, rng: &mut Rng, p: &Profile, steps: usize) {
             d.exec(&op);
             done += 1;
         }
+    }
+    if p.idle {
+        teardown(d, rng, &mut pv);
     }
 }
 
